@@ -251,10 +251,17 @@ func covered(op compiler.Opcode) bool {
 // instrPre: what the analyzer and the compiler establish before an
 // instruction runs (operand presence and kinds, immediates in range).
 func instrPre(c Core, i compiler.Instruction) bool {
-	if !compiler.VInstrWF(i) || len(c.CallStack) == 0 || c.parent == nil {
+	if i == nil {
 		return false
 	}
 	op := i.Opcode()
+	if !covered(op) {
+		// instructions outside the contract: nothing is required (and nothing is promised)
+		return true
+	}
+	if !compiler.VInstrWF(i) || len(c.CallStack) == 0 || c.parent == nil {
+		return false
+	}
 	switch op {
 	case compiler.Opcode_Nop, compiler.Opcode_AddMempointer, compiler.Opcode_Copy_Push, compiler.Opcode_Jump,
 		compiler.Opcode_SetTryLabel, compiler.Opcode_Call_Imm, compiler.Opcode_Return:
@@ -393,6 +400,7 @@ func keepsFrame(op compiler.Opcode) bool {
     serves C01, C02, C04, C09, C11, C16
     wrap int64
     ghostset sincePoll = ghost(sincePoll) + 1
+    split instruction.Opcode() in 0..51
     assumes covered(instruction.Opcode())
     assumepre Clone, IsEqual, Display
     requires instrPre(*self, instruction)
